@@ -12,6 +12,7 @@ import (
 	"fmt"
 	"sort"
 	"strings"
+	"time"
 
 	"github.com/openacid/slim/trie"
 )
@@ -121,12 +122,39 @@ func (r QRes) Line(q string) string {
 	return fmt.Sprintf("q %s G %d %s R %s S %s %s %s I %d %d %d", hxs(q), r.ID, r.Get, r.Range, r.SL, r.SE, r.SR, r.IL, r.IE, r.IR)
 }
 
-// reload marshals and unmarshals into a new instance.
+// reload marshals and unmarshals. Every second call loads into an instance that is ALREADY IN
+// USE: it first holds the previous stream written with the same encoder and has been read
+// through every public entry point (so that anything an instance caches lazily is filled), then
+// receives the new stream through a direct st.Unmarshal - the other calls load into a fresh
+// instance. A loaded trie must answer the same either way (C05: no residue).
+var reloadCount int
+var reloadPrev = map[string][]byte{}
+
+func touchAll(st *trie.SlimTrie) {
+	for _, f := range []func(){
+		func() { st.Get("a") }, func() { st.GetID("a") }, func() { st.RangeGet("a") }, func() { st.Search("a") },
+		func() { _ = st.String() }, func() { _ = st.Stat() },
+		func() { st.GetI8("a") }, func() { st.GetI16("a") }, func() { st.GetI32("a") }, func() { st.GetI64("a") },
+		func() { st.GetI8("") }, func() { st.GetI16("") }, func() { st.GetI32("") }, func() { st.GetI64("") },
+		func() { nxt := st.NewIter("", true, true); nxt() },
+		func() { st.ScanFrom("", true, true, func(k, v []byte) bool { return false }) },
+	} {
+		func() {
+			defer func() { recover() }()
+			f()
+		}()
+	}
+}
+
 func reload(st *trie.SlimTrie, spec *EncSpec) (*trie.SlimTrie, []byte, error) {
 	var st2 *trie.SlimTrie
 	var buf []byte
 	var err error
-	func() {
+	reloadCount++
+	used := reloadCount%2 == 0
+	done := make(chan struct{})
+	go func() {
+		defer close(done)
 		defer func() {
 			if r := recover(); r != nil {
 				err = fmt.Errorf("PANIC: %v", r)
@@ -140,8 +168,21 @@ func reload(st *trie.SlimTrie, spec *EncSpec) (*trie.SlimTrie, []byte, error) {
 		if err != nil {
 			return
 		}
+		if prev := reloadPrev[spec.Name]; used && prev != nil {
+			if st2.Unmarshal(prev) == nil {
+				touchAll(st2)
+			}
+		}
 		err = st2.Unmarshal(buf)
 	}()
+	select {
+	case <-done:
+	case <-time.After(60 * time.Second):
+		return nil, buf, fmt.Errorf("TIMEOUT: Marshal/Unmarshal (into a used instance: %v) did not return", used)
+	}
+	if err == nil && buf != nil {
+		reloadPrev[spec.Name] = buf
+	}
 	return st2, buf, err
 }
 
